@@ -364,11 +364,16 @@ static std::string exec_op(int a, const std::vector<std::string> &tk) {
     int v = I(tk[3]);
     if (!g_it[3]) { g_it[3] = C(int_int_table_locked_table_begin(g_lt[a])); if (!g_it[3]) return " exc:bad_alloc"; }
     bool valid3 = g_it_valid[3];
+    LT::iterator keep3 = g_it[3]->it;
+    int_int_table_locked_table_set_begin(g_lt[a], g_it[3]);   // park the out-parameter on the first element (if any)
     LT::iterator saved = g_it[3]->it;
     bool res = C(int_int_table_locked_table_insert(g_lt[a], &k, &v, g_it[3]));
-    if (!res && errno == ENOMEM) { r = " exc:bad_alloc"; }
+    if (!res && errno == ENOMEM) {
+      // the C++ call throws and changes nothing: the caller's iterator out-parameter must be left as it was
+      r = (g_it[3]->it == saved) ? " exc:bad_alloc" : " exc:bad_alloc OUT-PARAMETER-CHANGED";
+    }
     else { r = " " + pos_str(g_it[3]->it) + B(res); }
-    g_it[3]->it = saved;
+    g_it[3]->it = keep3;
     g_it_valid[3] = valid3;
   } else if (o == "l.erase") {
     r = " " + std::to_string(C(int_int_table_locked_table_erase(g_lt[a], &k)));
@@ -531,6 +536,7 @@ static void fault_child(int a, const std::vector<std::string> &tk, long k, long 
     if (escaped) verdict = "exception-crossed-C-boundary";
     else if (!failed_ret && res != UNM) verdict = "failure-not-reported";   // allocation failed but no ENOMEM+failure value
     else if (failed_ret && en != ENOMEM) verdict = "errno-not-ENOMEM";
+    else if (res.find("OUT-PARAMETER-CHANGED") != std::string::npos) verdict = "failed-call-changed-the-iterator-out-parameter";
     else if (!g_protocol_error.empty()) verdict = "table-not-valid:" + std::string("lock-array-published-without-generation-bump");
     // contents must be unchanged after a reported failure
     for (int i = 0; i < NT && verdict == "ok"; ++i) {
